@@ -319,8 +319,12 @@ type Type struct {
 	YangType *YangType
 
 	// resolveFailed is set when resolving the type reported errors; such a
-	// type is resolved again by the next Process.
+	// type is resolved again by the next Process.  resolveErrs holds those
+	// errors and resolvePass the pass (see typeDictionary.pass) they were
+	// found in: within one pass the resolution is not repeated.
 	resolveFailed bool
+	resolveErrs   []error
+	resolvePass   int
 }
 
 func (Type) Kind() string             { return "type" }
